@@ -42,6 +42,29 @@ H(prop="C20", name="c20_metavar_spelling_n7", crate="core-h", module="c20_metava
   functions=["ast_grep_core::meta_var::extract_meta_var"],
   shape="STR", bounds="all strings <= 7 bytes over {$,A,Z,a,0,_}; unwind 9")
 
+LANGS = ["Bash", "C", "Cpp", "CSharp", "Css", "Elixir", "Go", "Haskell", "Html", "Java", "JavaScript", "Json", "Kotlin", "Lua",
+         "Php", "Python", "Ruby", "Rust", "Scala", "Swift", "Tsx", "TypeScript", "Yaml"]
+LANG_FUNCS = ["ast_grep_language::pre_process_pattern", "<ast_grep_language::SupportLang as Language>::pre_process_pattern / expando_char / extract_meta_var (all 23 built-in languages)",
+              "ast_grep_core::meta_var::extract_meta_var"]
+LANG_ASSUME = "grammar (FFI) not executed: ast-grep-language is built without its generated C grammars (feature builtin-parser off); that a language's tokenizer keeps the pre-processed spelling as one leaf is outside the claim"
+H(prop="C20", name="c20_lang_pipeline_table", crate="lang-h", module="c20_lang_spelling", features=[], timeout=1800, mem_gb=20,
+  decides="for every built-in language L: L.extract_meta_var(L.pre_process_pattern(s)) == the language-independent meaning of the spelling s ($A named capture, $$A any-node capture, $_ / $_X / $$_ non-capturing, $$$ / $$$_ anonymous ellipsis, $$$A named ellipsis; lower-case, digit-first names and lone sigils are not holes)",
+  functions=LANG_FUNCS, assumes=[LANG_ASSUME], shape="STR",
+  bounds="language: symbolic index into SupportLang::all_langs() (23); spelling: each of 24 concrete spellings ($A $Z $$A $_ $$_ $$$ $$$A $$$_ $_X $$_X $$$_X $A_1 $ZA $$Z0 $a $1 $ $$ $$$$ $$$$A $Aa $$$a $A$B A) -- a symbolic spelling makes the element count of pre_process_pattern's Vec<char> symbolic and runs out of memory (lab: c20_lang_spelling_rust_len3, c20_lang_shape_rust_2_2); unwind 25")
+for _nm, _b in (("c20_lang_spelling_rust_len3", "Rust, every spelling of exactly 3 bytes starting with $ over {$,A,Z,a,0,_}"),
+                ("c20_lang_shape_rust_2_2", "Rust, $$ followed by two symbolic name characters over {A,Z,a,0,_}")):
+    H(prop="C20", name=_nm, crate="lang-h", module="c20_lang_spelling", features=[], tier="lab", timeout=1800, mem_gb=24,
+      decides="extract_meta_var(pre_process_pattern(s)) == table, symbolic spelling (does not finish: out of memory)",
+      functions=LANG_FUNCS, assumes=[LANG_ASSUME], shape="STR", bounds=_b)
+H(prop="C20", name="c20_lang_expando_class", crate="lang-h", module="c20_lang_spelling", features=[],
+  decides="for every built-in language: expando_char() is the sigil or a character that cannot occur in a meta-variable spelling ([A-Z_0-9])",
+  functions=["<ast_grep_language::SupportLang as Language>::expando_char"], assumes=[LANG_ASSUME], shape="INT", bounds="symbolic index into SupportLang::all_langs() (23 languages)")
+for _nm, _e, _uw in (("mu", "U+00B5 (2 bytes: the expando of C#, CSS, Elixir, Go, Haskell, Kotlin, PHP, Python, Ruby, Rust, Swift)", 12),
+                     ("u10000", "U+10000 (4 bytes: the expando of C and C++)", 22)):
+    H(prop="C20", name=f"c20_metavar_spelling_expando_{_nm}_n5", crate="core-h", module="c20_metavar", timeout=1800, mem_gb=20,
+      decides="extract_meta_var(s, expando) == specification table (with the expando in the role of the sigil), for every s",
+      functions=["ast_grep_core::meta_var::extract_meta_var"],
+      shape="STR", bounds=f"all strings of <= 5 characters over {{expando,A,Z,a,0,_}}, expando = {_e}; unwind {_uw}")
 ANB_FUNCS = ["ast_grep_config::rule::nth_child::parse_an_b", "ast_grep_config::rule::nth_child::FunctionalPosition::is_matched"]
 H(prop="C20", name="c20_anb_parse_spec_n6", crate="config-h", module="anb",
   decides="parse_an_b(s) == reference reading of An+B (accept/reject and (A,B)), for every s",
@@ -60,6 +83,13 @@ H(prop="C11", name="c11_nth_is_matched_total", crate="config-h", module="anb",
   decides="is_matched never panics (sub/div/rem overflow) for any (step, offset) in i32^2",
   functions=ANB_FUNCS[1:], shape="INT", bounds="step, offset: full i32; index < 2^31-2")
 
+H(prop="C01", name="c01_prefilter_terminal", crate="core-h", module="c01_prefilter", features=["hooks", "n4"],
+  decides="Pattern::match_node_with_env(X) is Some ==> X.text() contains Pattern::fixed_string() (soundness of the CLI's literal-substring file prefilter), single-terminal patterns",
+  functions=["ast_grep_core::matcher::pattern::Pattern::fixed_string", "ast_grep_core::matcher::pattern::PatternNode::fixed_string",
+             "ast_grep_core::matcher::pattern::Pattern::match_node_with_env", "ast_grep_core::match_tree::match_node_non_recursive",
+             "ast_grep_core::match_tree::strictness::MatchStrictness::match_terminal"],
+  assumes=[ST_TS], shape="FLAT(1)", timeout=1800, mem_gb=24,
+  bounds="pattern = one terminal token (kind in 5 kinds + ERROR, named bit, 1-byte text x/y or the token's own text), all 5 strictness levels; candidate = one leaf (5 kinds, 1-byte text); unwind 8")
 # ---------------------------------------------------------------- C07
 TPL_FUNCS = ["ast_grep_core::replacer::template::create_template", "ast_grep_core::replacer::split_first_meta_var",
              "ast_grep_core::replacer::indent::get_indent_at_offset"]
@@ -67,6 +97,11 @@ H(prop="C07", name="c07_split_first_meta_var_n7", crate="core-h", module="c07_te
   decides="split_first_meta_var(s) == (up to 3 sigils, maximal [A-Z_0-9]+ name, kind single/multi/transformed) or None, for every s starting with the sigil",
   functions=TPL_FUNCS[1:2], shape="STR", bounds="all strings <= 7 bytes over {$,A,T,_,1,b} starting with $; unwind 9")
 
+for _nm, _lay in (("two_slots", "??$A???$$$B"), ("rejected_paren", "$(???$F?"), ("rejected_lower", "?$a???$T$"), ("adjacent", "$A$$B??$T?$$")):
+    H(prop="C07", name=f"c07_template_layout_{_nm}", crate="core-h", module="c07_template", tier="lab", timeout=1800, mem_gb=24,
+      decides="create_template(t) == reference scan: fragments, slot names / kinds and the indentation recorded for every slot (leading spaces of the slot's line in the whole template)",
+      functions=TPL_FUNCS, shape="STR",
+      bounds=f"template layout '{_lay}' (sigils and name characters concrete, every '?' symbolic over {{' ', '\\n', 'x'}}); transformed name T; unwind 14")
 # ---------------------------------------------------------------- C16
 H(prop="C16", name="c16_char_column_4ch", crate="core-h", module="c16_positions", also=["C19"], mem_gb=24,
   decides="get_char_column(offset) == number of chars since the last newline (forward decode)",
@@ -122,6 +157,23 @@ H(prop="C20", name="c20_resolve_char_python", crate="config-h", module="small_ke
   decides="resolve_char(index, default, len) == Python slice index normalisation",
   functions=["ast_grep_config::transform::transformation::resolve_char"],
   shape="INT", bounds="index: full i32 or absent; len: every i32 >= 0; default in {0, len}")
+for _v, _how in (("node", "bound to $A through MetaVarEnv::insert (text read from the document)"),
+                  ("transformed", "provided as an earlier transformation's output (MetaVarEnv::insert_transformation)")):
+    H(prop="C20", name=f"c20_substring_chars_{_v}", crate="config-h", module="c20_substring", stubbing=True, tier="lab",
+      assumes=[ST_TS, ST_MAP, ST_REGEX, ST_UTF8], timeout=1800, mem_gb=24,
+      decides="Substring::compute(s, startChar, endChar) == Python s[start:end] on characters (not bytes)",
+      functions=["ast_grep_config::transform::transformation::Substring::compute",
+                 "ast_grep_config::transform::transformation::resolve_char",
+                 "ast_grep_core::meta_var::MetaVarEnv::get_var_bytes"],
+      shape="STR", bounds=f"captured text fixed: 'a e-acute euro U+1F600' (10 bytes, 4 characters), {_how}; startChar / endChar: absent or any i32; unwind 12")
+for _v in ("start", "end"):
+    H(prop="C20", name=f"c20_substring_chars_{_v}_only", crate="config-h", module="c20_substring", stubbing=True, tier="lab",
+      assumes=[ST_TS, ST_MAP, ST_REGEX, ST_UTF8], timeout=1800, mem_gb=24,
+      decides="Substring::compute(s, startChar, endChar) == Python s[start:end] on characters (not bytes)",
+      functions=["ast_grep_config::transform::transformation::Substring::compute",
+                 "ast_grep_config::transform::transformation::resolve_char",
+                 "ast_grep_core::meta_var::MetaVarEnv::get_var_bytes"],
+      shape="STR", bounds=f"captured text fixed: 'a e-acute euro U+1F600' (10 bytes, 4 characters) provided as an earlier transformation's output; {_v}Char: any i32, the other index absent; unwind 12")
 H(prop="C11", name="c11_transform_source_total", crate="config-h", module="small_kernels", stubbing=True, assumes=[ST_REGEX],
   decides="Transformation::used_vars / parse never panic on any `source` string",
   functions=["ast_grep_config::transform::transformation::Transformation::used_vars",
@@ -562,6 +614,13 @@ for sh in range(2, 9):
 # lab      = harnesses kept as the record of what was tried but which the engine does not
 #            decide on this machine (time-outs / out of memory, DESIGN 3).  They are run only
 #            with `--tier lab`; no registered command runs them, no claim rests on them.
+for _k in (1, 2):
+    H(prop="C01", name=f"c01_prefilter_internal_k{_k}", crate="core-h", module="c01_prefilter", features=["hooks", "n4"], tier="lab",
+      recursion=REC_FLAT, loops=LOOPS_FLAT, timeout=1800, mem_gb=24,
+      decides="Pattern::match_node_with_env(X) is Some ==> X.text() contains Pattern::fixed_string(), pattern = internal node with one terminal child",
+      functions=["ast_grep_core::matcher::pattern::Pattern::fixed_string", "ast_grep_core::matcher::pattern::Pattern::match_node_with_env"] + ALIGN_FUNCS,
+      assumes=ALIGN_ASSUMES, shape=f"FLAT({_k})",
+      bounds=f"pattern = call[one terminal: 5 kinds, named bit, 1-byte text], all 5 strictness levels; candidate = call node with {_k} leaves (5 kinds, 1-byte texts); unwind 8, matcher recursion 1")
 _LAB_PREFIXES = ("c03_env_", "c03_len_", "c03_tt_", "c03_sep_", "c03_lay_", "c03_layc_", "c07_indent_shift", "c05k_logic", "c01k_rule_kinds", "c02_", "c04_", "c04k_", "c05d_", "c05_", 
                  "c14_", "c12_", "c13_", "c01_combined", "c01_kinds_algebra", "c01_find_all_shape", "c01_outermost_shape", "c01_find_all_exact_n", "c01_outermost_pre_n", "c06_replace_all_disjoint_n4",
                  "c06_rewrite", "c06_replace_all_shape", "c07_template_scan", "c11_replace_regex_total", "c11_string_case_split", "c19_level_", "c19_levelq_")
